@@ -233,7 +233,7 @@ install_taps()
 
 
 class ValidatorResult(object):
-    __slots__ = ("verdict", "exc", "pics", "reads", "tell", "headers", "decodes", "unit_codes", "explain_failure")
+    __slots__ = ("verdict", "exc", "pics", "reads", "tell", "headers", "decodes", "unit_codes", "explain_failure", "tell_bits")
 
 
 def check_reportable(exc, filename="stream.vc2", tell_bits=0):
@@ -268,6 +268,7 @@ def run_validator(data, tap=False):
     res = ValidatorResult()
     res.pics = []
     res.explain_failure = None
+    res.tell_bits = None
     f = SimFile(data)
     state = State(_output_picture_callback=lambda p, vp, pcm: res.pics.append((p, dict(vp), pcm)))
     TAP.reset()
@@ -283,6 +284,7 @@ def run_validator(data, tap=False):
                 tb = to_bit_offset(*decoder.tell(state))
             except Exception:
                 tb = 0
+            res.tell_bits = tb
             res.explain_failure = check_reportable(e, tell_bits=tb)
         except OutOfScope as e:
             res.verdict, res.exc = "oos", e
